@@ -238,6 +238,8 @@ def V.rel (q : ValQuirks) (env : Env ν) (op : RelOp) (a b : V ν) : RelRes :=
     | _, _ =>
       match a, b with
       | .str _ _, .str _ _ => .unmodelled
-      | _, _ => .unevaluated
+      | .str _ _, _ => .unevaluated        -- `css_operand`: may be part of a css expression
+      | _, .str _ _ => .unevaluated
+      | _, _ => if q.ordNonNumberKept then .unevaluated else .error   -- `BadOp::UndefinedOperation`
 
 end Val
